@@ -59,8 +59,11 @@ KINDS = {
               lambda z, t: ("RP", "000000B0000000000000000000007FFFFF7000000000"), "log"),
     "3220": ("10", lambda z: ("RQ", "3220", f"0000{z}0000"),
              lambda z, t: ("RP", f"00C0{z}{t:04X}"), "ot"),
-    "0404": ("01", lambda z: ("RQ", "0404", f"{z[:2]}20000800{z[2:]}00"),
-             lambda z, t: ("RP", f"{z[:2]}20000806{z[2:]}03{t:04X}AABBCCDD"), "frag"),
+    # z = zone idx + fragment number + schedule type (20 = a zone's, 23 = the DHW's, which is always 'zone' 00)
+    "0404": ("01", lambda z: ("RQ", "0404", f"{z[:2]}{z[4:6]}000800{z[2:4]}00"),
+             lambda z, t: ("RP", f"{z[:2]}{z[4:6]}000806{z[2:4]}03{t:04X}AABBCCDD"), "frag"),
+    # a bind accept sent with wait_for_reply: the confirm comes from the supplicant, addressed to us
+    "W1FC9": ("34", lambda z: (" W", "1FC9", f"{z}230906368E"), lambda z, t: (" I", f"{z}2309{0x8C0000 + t:06X}"), "zone"),
     "W2309": ("01", lambda z: (" W", "2309", f"{z}07D0"), lambda z, t: (" I", f"{z}07D0"), "zone"),
     "1F09": ("01", lambda z: ("RQ", "1F09", "00"), lambda z, t: ("RP", f"00{t:04X}"), "none"),
     "313F": ("01", lambda z: ("RQ", "313F", "00"), lambda z, t: ("RP", "00FC0029D6050B07E7"), "none"),
@@ -77,7 +80,8 @@ def ctx_values(space: str, r) -> str:
     if space == "ot":
         return f"{r.choice([0, 1, 3, 5, 17, 18, 19, 25, 26, 27, 28, 56, 57, 115, 116, 120, 127]):02X}"
     if space == "frag":
-        return f"{r.randrange(12):02X}{r.randrange(1, 4):02X}"
+        zi = r.choice([0, 0, r.randrange(12)])
+        return f"{zi:02X}{r.randrange(1, 4):02X}{'23' if (zi == 0 and r.random() < 0.5) else '20'}"
     if space == "zr":  # zone idx + device role
         return f"{r.randrange(12):02X}{r.choice(['00', '04', '08', '09', '0A', '0B', '11'])}"
     if space == "zt":  # 00 + zone type
@@ -94,8 +98,10 @@ def other_ctx(space: str, z: str, r) -> str | None:
     if space == "zr" and r.random() < 0.6:  # same zone, another role
         alt = [z[:2] + x for x in ("00", "04", "08", "0A") if z[:2] + x != z]
         return r.choice(alt)
-    if space == "frag" and r.random() < 0.5:
-        alt = [z[:2] + f"{(int(z[2:], 16) % 3) + 1:02X}", ("00" if z[:2] != "00" else "01") + z[2:]]
+    if space == "frag" and r.random() < 0.7:
+        alt = [z[:2] + f"{(int(z[2:4], 16) % 3) + 1:02X}" + z[4:6], ("00" if z[:2] != "00" else "01") + z[2:4] + "20"]
+        if z[:2] == "00":  # the same fragment of the *other* schedule that lives under index 00 (zone 00's vs the DHW's)
+            alt += [z[:4] + ("23" if z[4:6] == "20" else "20")] * 3
         alt = [a for a in alt if a != z]
         if alt:
             return r.choice(alt)
@@ -217,6 +223,8 @@ def generate(plan) -> None:
                  "num_repeats": r.choice([0, 0, 0, 1, 3])}
             if space == "imp":
                 d["src"] = dst
+            elif kind == "W1FC9":  # an accept is sent on behalf of the (faked) respondent, never from the gateway's own address
+                d["src"] = r.choice(["30:111111", "07:045960", "01:220768"])
             elif sc != "match" and r.random() < 0.06:
                 d["src"] = r.choice(["30:111111", "07:045960"])  # impersonated requester
             ops.append(d)
@@ -727,6 +735,8 @@ def oracle_c07(sim: QosSim) -> None:
                 else:
                     who = "foreign:" + cls if cls else ("other_cmd" if any(
                         got == o.wire(sim.gid) or got in o.replies for o in sim.ops.values()) else "unknown")
+                    if op.kind == "W1FC9":
+                        who += ":W1FC9"  # (KF12: a bind accept's reply header names only the addressee)
                     ctx.violate("C07", "wrong_pkt", who, f"op{op.id} {op.frame} returned {got!r}")
         # deadline
         alert = 0.0
